@@ -317,7 +317,7 @@ def layout(lines, rng, style="random"):
     joined = []
     for d, toks in lines:
         if (style != "clean" and joined and joined[-1][1] == "}" and toks and not toks.startswith("#") and "\\" not in toks
-                and "//" not in toks and r.random() < 0.2):
+                and "//" not in toks and r.random() < 0.3):
             joined[-1] = (joined[-1][0], "} " + toks)
         else:
             joined.append((d, toks))
